@@ -199,7 +199,7 @@ def rows_of(st):
 
 
 def run(tier, seed, rng, known, replay):
-    n_cases = 48 if tier == 'quick' else 400
+    n_cases = 48 if tier == 'quick' else 240
     if replay:
         import json
         with open(replay) as f:
